@@ -316,6 +316,7 @@ pub fn run_c07(rep: &mut Report, thorough: bool) {
     );
     rep.stage("arith", "validated flow: 7 sequence numbers x 7 payload lengths x data offsets 5..15 (TCP options); FIN|ACK acknowledgement high half over all 65536 values", total, t0);
     ack_neighbourhood(&s, rep, "C07");
+    source_mac_stage(&s.cfg, rep, "C07");
     sibling_bfs(&s.cfg, rep, "bfs-c07-sibling-destinations", thorough);
     // the other fields of an accepted data segment (advertised window incl. 0, urgent pointer with
     // and without URG, reserved bits, ECE / CWR / NS next to PSH|ACK) shape neither the flags nor
@@ -648,6 +649,76 @@ pub fn context_switch(cfg: &Cfg, rep: &mut Report) {
     }
     rep.sink.count("frames", n);
     rep.stage("context-switch", "every datagram payload of the corpus x 3 orders of 6 contexts (per IP version: two ports of one destination address and another address) in one process, each reply compared with the reply from a fresh process", n, t0);
+}
+
+/// One flow seen through two link-layer neighbours (two Ethernet source addresses): the cookie,
+/// the acceptance of its data segments and the ONE control block belong to the 4-tuple, not to
+/// the neighbour.  `prop` selects the clause that is reported: C06 (the SYN-ACK sequence number
+/// is the same), C07 (a segment acknowledging the cookie learned through the other neighbour is
+/// answered), C09 (one entry, however many neighbours).
+pub fn source_mac_stage(cfg: &Cfg, rep: &mut Report, prop: &'static str) {
+    let t0 = std::time::Instant::now();
+    let macs: [Mac; 4] = [MAC_CLI, MAC_CLI2, [0x02, 0, 0, 0, 0, 0x77], [0x00, 0x50, 0x56, 0xaa, 0xbb, 0xcc]];
+    let mut n = 0u64;
+    let mut d = match crate::driver::Driver::spawn(cfg) {
+        Ok(d) => d,
+        Err(e) => {
+            rep.sink.machinery_errors.push(e);
+            return;
+        }
+    };
+    for v6 in [false, true] {
+        for (ai, a) in macs.iter().enumerate() {
+            for (bi, b) in macs.iter().enumerate() {
+                if ai == bi {
+                    continue;
+                }
+                let mut fa = flow(v6, 40000, 80);
+                fa.cmac = *a;
+                let mut fb = fa.clone();
+                fb.cmac = *b;
+                let o1 = d.exec(&[Cmd::Reset, Cmd::Frame(fa.tcp(5, 0, F_SYN, b"")), Cmd::Frame(fb.tcp(5, 0, F_SYN, b""))]).unwrap_or_default();
+                let ca = o1.get(1).and_then(|o| o.reply.as_deref()).and_then(synack_seq);
+                let cb = o1.get(2).and_then(|o| o.reply.as_deref()).and_then(synack_seq);
+                n += 2;
+                let (ca, cb) = match (ca, cb) {
+                    (Some(x), Some(y)) => (x, y),
+                    _ => continue,
+                };
+                let mut bad: Option<(String, String, Vec<Cmd>)> = None;
+                if prop == "C06" && ca != cb {
+                    bad = Some(("cookie-depends-on-source-mac".into(), format!("the same 4-tuple gets SYN-ACK sequence {:#010x} through {} and {:#010x} through {}", ca, mac_str(a), cb, mac_str(b)), vec![Cmd::Reset, Cmd::Frame(fa.tcp(5, 0, F_SYN, b"")), Cmd::Frame(fb.tcp(5, 0, F_SYN, b""))]));
+                }
+                // data acknowledging the cookie learned through A, sent through B, then through A
+                let cmds = vec![Cmd::Reset, Cmd::Frame(fb.tcp(1000, ca.wrapping_add(1), F_PSH | F_ACK, HTTP_REQ)), Cmd::Frame(fa.tcp(1000, ca.wrapping_add(1), F_PSH | F_ACK, HTTP_REQ)), Cmd::Frame(fb.tcp(1000, cb.wrapping_add(1), F_PSH | F_ACK, HTTP_REQ))];
+                let o2 = d.exec(&cmds).unwrap_or_default();
+                n += 3;
+                if o2.len() == 4 {
+                    if prop == "C07" && o2[1].reply.is_none() {
+                        bad = Some(("data-unanswered-via-other-neighbour".into(), format!("data acknowledging the flow's cookie + 1 is not answered when it arrives from {} (the SYN-ACK went to {})", mac_str(b), mac_str(a)), cmds[..2].to_vec()));
+                    }
+                    if prop == "C09" {
+                        for k in 1..4 {
+                            let accepted = (1..=k).filter(|j| o2[*j].reply.is_some()).count();
+                            let want = accepted.min(1);
+                            if o2[k].n != want {
+                                bad = Some(("table-size-per-neighbour".into(), format!("one 4-tuple, data segments through {} and {}: after segment {} ({} accepted) the table has {} entries", mac_str(a), mac_str(b), k, accepted, o2[k].n), cmds[..=k].to_vec()));
+                                break;
+                            }
+                        }
+                        if bad.is_none() && o2[1].reply.is_none() {
+                            bad = Some(("valid-segment-creates-no-state".into(), format!("a PSH|ACK with ack = cookie + 1 arriving from {} is dropped and leaves no entry (the cookie was handed out through {})", mac_str(b), mac_str(a)), cmds[..2].to_vec()));
+                        }
+                    }
+                }
+                if let Some((key, what, c)) = bad {
+                    rep.sink.violation(Violation { prop: prop.into(), key, what, cfg: cfg.clone(), cmds: c, idx: n, stage: "source-mac".into() });
+                }
+            }
+        }
+    }
+    rep.sink.count("frames", n);
+    rep.stage("source-mac", "one 4-tuple through every ordered pair of 4 Ethernet source addresses x {v4,v6}: SYN through both (same cookie), data acknowledging the first one's cookie through the second, then through the first, then the second one's own", n, t0);
 }
 
 /// Neighbour probes: one accepted first request on flow X (every TCP payload of the corpus, the
@@ -1064,6 +1135,7 @@ pub fn run_c09(rep: &mut Report, thorough: bool) {
     );
     rep.stage("growth-once", "200 valid data segments on one flow: table size stays 1", 200, t0);
     ack_neighbourhood(&s, rep, "C09");
+    source_mac_stage(&s.cfg, rep, "C09");
     sibling_bfs(&s.cfg, rep, "bfs-c09-sibling-destinations", thorough);
     // whatever the accepted segment CARRIES (every corpus payload, every STUN attribute shape incl.
     // CHANGE-REQUEST in >= 256-byte requests, twice in a row): one flow, one entry
